@@ -22,6 +22,33 @@ def check(scn, H, view=None):
     esi = [rm.elem_si(e) for e in scn['elements']]
     asm = [b for b in H['build'] if b['ev'] == 'assemble']
     rel = H.get('relations')
+    if asm and not rel and asm[0]['exc'] is None:
+        # a simulated scenario (no relation dumps): only the clause "the
+        # element tuple and the flag cannot be changed afterwards", probed
+        # after re-declarations, runs and resets
+        a0 = asm[0]
+        for rec in H['ops']:
+            if rec['op'] == 'redeclare' and rec['exc'] is None:
+                st['redeclared_after_assembly'] += 1
+            if rec['op'] == 'reset' and rec['exc'] is None:
+                st['resets_after_redeclaration'] += 1
+            if rec['op'] != 'probe_immutable':
+                continue
+            p = rec['probe']
+            st['immutability_probes'] += 1
+            st['assemblies'] += 1
+            for attr in ('elements', 'self_locking', 'time'):
+                if p['assign_' + attr] != 'AttributeError':
+                    out.append(Violation(PROP, f'{attr}-assignable', {
+                        'outcome': p['assign_' + attr]}))
+            if p['chain'] != a0['chain'] or p['elements_type'] != 'tuple':
+                out.append(Violation(PROP, 'elements-changed-after-assembly', {
+                    'before': a0['chain'], 'after': p['chain']}))
+            if p['self_locking'] is not a0['self_locking']:
+                out.append(Violation(PROP, 'self-locking-changed-after-assembly', {
+                    'before': a0['self_locking'], 'after': p['self_locking'],
+                    'ops_before': [o['op'] for o in scn['schedule'][:rec['i']]]}))
+        return out[:1], st
     if not asm or not rel:
         return out, st
     asm = asm[0]
